@@ -82,6 +82,10 @@ func (r *pfbReader) Read(b []byte) (n int, err error) {
 			k, err = io.ReadFull(r.r, b[:k])
 			r.len -= int64(k)
 			if err != nil {
+				if err == io.EOF {
+					// the segment is shorter than its declared length
+					err = io.ErrUnexpectedEOF
+				}
 				return n, err
 			}
 			l := 2 * k
